@@ -162,7 +162,7 @@ public:
         if (!fired && failAt != 0 && phase == failPhase && allocs[phase] == failAt)
         {
             fired = true;
-            failSite = stackString(2, 6);
+            failSite = stackString(2, 40);
             emit("failsite=" + failSite + "\n");
             if (tracing) trace.push_back(LONG_MIN);
             if (excKind == EXC_BADALLOC) throw std::bad_alloc();
